@@ -1228,7 +1228,7 @@ Section Trace.
     intros H1 H2 x o Hx. rewrite Forall_forall in H1. rewrite forallb_forall in H2. apply H1; auto.
   Qed.
 
-  Theorem keys_static e : kstatic e = true -> forall o, static (keys e o).
+  Theorem keys_static_KS e : KS e.
   Proof.
     induction e using expr_ind'; intros Hk o; cbn [kstatic] in Hk; try discriminate.
     - rewrite keys_value_E. apply static_ret.
@@ -1236,7 +1236,7 @@ Section Trace.
       destruct r as [[]| |]; try apply static_ret; try apply static_fail.
       + destruct (has_par s); [apply static_fail|]. apply static_bind; [|intros; apply static_ret].
         apply static_unionM. intros; apply static_ref_keys.
-      + apply static_dflt_or; [|apply static_fail]. intros d Ed. eapply ks_opt; eauto.
+      + apply static_dflt_or; [|apply static_fail]. intros d Ed. exact (ks_opt _ H Hk d o Ed).
     - apply andb_prop in Hk as [K1 K2]. rewrite keys_apply_E.
       apply static_bind; [now apply IHe1|]. intros a.
       apply static_bind; [now apply IHe2|intros; apply static_ret].
@@ -1262,8 +1262,8 @@ Section Trace.
     - rewrite keys_cached_E. now apply IHe.
     - apply andb_prop in Hk as [Hk K3]. apply andb_prop in Hk as [K1 K2]. rewrite keys_call_E.
       apply static_bind; [now apply IHe|]. intros a.
-      apply static_bind; [apply static_unionM; intros x Hx; eapply ks_list; eauto|]. intros b.
-      apply static_bind; [apply static_unionM; intros x Hx; eapply ks_list; eauto|]. intros; apply static_ret.
+      apply static_bind; [apply static_unionM; intros x Hx; exact (ks_list _ H K2 x o Hx)|]. intros b.
+      apply static_bind; [apply static_unionM; intros x Hx; exact (ks_list _ H0 K3 x o Hx)|]. intros; apply static_ret.
     - rewrite keys_template_E.
       apply static_bind; [apply static_unionM; intros pe Hpe; eapply ks_snd; eauto|]. intros a.
       apply static_bind; [apply static_unionM; intros; apply static_ref_keys|intros; apply static_ret].
@@ -1272,6 +1272,9 @@ Section Trace.
     - rewrite keys_pipe_E. apply static_unionM. intros x Hx. eapply ks_list; eauto.
     - rewrite keys_alloptions_E. apply static_bind; [now apply static_emit|intros; apply static_ret].
   Qed.
+
+  Corollary keys_static e : kstatic e = true -> forall o, static (keys e o).
+  Proof. exact (keys_static_KS e). Qed.
 
   Corollary fingerprint_static e : kstatic e = true -> forall o, static (fingerprint e o).
   Proof.
